@@ -352,27 +352,28 @@ def make_queries(rng, c, nq):
         if kind == 'F':
             s = rand_selector(rng, c.n['F'], c.tagsF, c.predF, {'int', 'arr', 'default', 'pred', 'tag', 'coll'})
             out.append((f'(QF {s.coq} {cskip} {post_c})', (lambda s=s, kw=kw, post_py=post_py: post_py(b.get_dofs(s.py, **kw))),
-                        ('F', repr(s.py)[:80], skip, pk, nm)))
+                        ('F', repr(s.py)[:80], skip, pk, nm), {'on': 'F', 'ids': [s.ids], 'skip': skip, 'pk': pk, 'nm': nm}))
         elif kind == 'E':
             s = rand_selector(rng, c.n['E'], c.tagsE, c.predE, {'int', 'arr', 'all', 'pred', 'tag', 'coll'})
             out.append((f'(QE {s.coq} {cskip} {post_c})', (lambda s=s, kw=kw, post_py=post_py: post_py(b.get_dofs(elements=s.py, **kw))),
-                        ('E', repr(s.py)[:80], skip, pk, nm)))
+                        ('E', repr(s.py)[:80], skip, pk, nm), {'on': 'E', 'ids': [s.ids], 'skip': skip, 'pk': pk, 'nm': nm}))
         elif kind == 'N':
             s = rand_selector(rng, c.n['N'], {}, c.predN, {'arr', 'pred', 'coll'})
             def detuple(x):                      # a tuple means "the point with these coordinates" for nodes
                 return [detuple(y) for y in x] if isinstance(x, (tuple, list)) else x
             s.py = detuple(s.py)
             out.append((f'(QN {s.coq} {cskip} {post_c})', (lambda s=s, kw=kw, post_py=post_py: post_py(b.get_dofs(nodes=s.py, **kw))),
-                        ('N', repr(s.py)[:80], skip, pk, nm)))
+                        ('N', repr(s.py)[:80], skip, pk, nm), {'on': 'N', 'ids': [s.ids], 'skip': skip, 'pk': pk, 'nm': nm}))
         elif kind == 'or':
             a = rand_selector(rng, c.n['F'], c.tagsF, c.predF, {'int', 'arr', 'default', 'pred', 'tag'})
             d = rand_selector(rng, c.n['F'], c.tagsF, c.predF, {'int', 'arr', 'pred', 'tag'})
             out.append((f'(QOrF {a.coq} {d.coq} {cskip})',
                         (lambda a=a, d=d, kw=kw: (b.get_dofs(a.py, **kw) | b.get_dofs(d.py, **kw)).flatten()),
-                        ('or', repr(a.py)[:40], repr(d.py)[:40], skip)))
+                        ('or', repr(a.py)[:40], repr(d.py)[:40], skip), {'on': 'F', 'ids': [a.ids, d.ids], 'skip': skip, 'pk': 0, 'nm': []}))
         else:
             s = rand_selector(rng, c.n['F'], c.tagsF, c.predF, {'int', 'arr', 'default', 'pred', 'tag', 'coll'})
-            out.append((f'(QComplF {s.coq})', (lambda s=s: b.complement_dofs(b.get_dofs(s.py))), ('compl', repr(s.py)[:80])))
+            out.append((f'(QComplF {s.coq})', (lambda s=s: b.complement_dofs(b.get_dofs(s.py))), ('compl', repr(s.py)[:80]),
+                        {'on': 'F', 'ids': [s.ids], 'skip': [], 'pk': 0, 'nm': [], 'compl': True}))
     return out
 
 
@@ -416,6 +417,29 @@ def closure_facets(c, F):
                     es.add(int(t2e[s, e]))
         out |= set(np.asarray(D.edge_dofs)[:, sorted(es)].flatten().tolist())
     return out
+
+
+def expected_query(c, spec, names):
+    """the DOF set the property statement demands for one query (independent of the model and of the selector code)"""
+    b, m = c.basis, c.m
+    ids = set()
+    for part in spec['ids']:
+        ids |= set(int(f) for f in range(m.facets.shape[1]) if m.f2t[1, f] == -1) if isinstance(part, str) else set(part)
+    if spec['on'] == 'F':
+        base = closure_facets(c, ids)
+    elif spec['on'] == 'E':
+        base = set(np.asarray(b.element_dofs)[:, sorted(ids)].flatten().tolist())
+    else:
+        nd_ = np.asarray(b.nodal_dofs)
+        base = set(nd_[:, sorted(ids)].flatten().tolist()) if nd_.size else set()
+    base = {d for d in base if names[d] not in spec['skip']}
+    if spec['pk'] in (1, 2):
+        base = {d for d in base if names[d] in spec['nm']}
+    elif spec['pk'] == 3:
+        base = {d for d in base if names[d] not in spec['nm']}
+    if spec.get('compl'):
+        base = set(range(b.N)) - base
+    return sorted(base)
 
 
 def oracle_context(ctx, c, rng):
@@ -550,12 +574,22 @@ def run(ctx):
             ctx.hist('counts(nd,ed,fd,id)', c.counts)
             qs = make_queries(rng, c, ctx.n(10, 16))
             outs = []
-            for cq, thunk, desc in qs:
+            dnames = bfun_names(c)
+            both = c.counts[1] > 0 and c.counts[2] > 0 and np.asarray(c.basis.edge_dofs).size > 0
+            for cq, thunk, desc, spec in qs:
                 try:
                     r = [int(x) for x in np.asarray(thunk()).tolist()]
                     outs.append(copt(cnats(r)))
                     ctx.count(('query', kind, name, desc, c.m.t.tolist()), nontrivial=len(r) > 0)
                     ctx.hist('query', desc[0])
+                    want = expected_query(c, spec, dnames)
+                    if r != want:
+                        named = bool(spec['skip']) or spec['pk'] != 0
+                        ctx.fail(NAME_KEY if (both and named) else f'elem={name}:{kind}:query',
+                                 f'{name} on {type(c.m).__name__}: query {desc} returns {r[:12]}... but the DOFs of the selected entities '
+                                 f'(closure by vertex sets, names in basis-function order) are {want[:12]}...',
+                                 {'kind': kind, 'element': name, 'p': c.m.p.tolist(), 't': c.m.t.tolist(), 'query': repr(desc),
+                                  'got': r, 'want': want})
                 except Exception as ex:      # an accepted selector form must not raise
                     outs.append('None')
                     ctx.fail(f'elem={name}:{kind}:query-exception', f'get_dofs raises {type(ex).__name__}: {ex} for {desc}',
